@@ -43,6 +43,23 @@ package bfe_server
 // retried, failed and never-proxied requests. Same model and oracle: whatever the verdicts,
 // every backend's count equals the in-flight count and is 0 when the request is over. In all
 // other families these filters answer GoOn without consuming a choice.
+//
+// Availability transitions interleaved with in-flight requests ("hc" families): the cluster's
+// real health-check conf gets FailNum 1..2 / SuccNum 1..2, request a is parked inside RoundTrip
+// and then every sequence of E events is enumerated, each event being one of
+//   req        : a further request on a new connection with its own enumerated script; its
+//                failures take the real OnFail -> backend.UpdateStatus path and mark the
+//                backend down (avail=false, health-check goroutine started) once FailNum
+//                consecutive failures are reached,
+//   hc-ok:i / hc-fail:i : a health-check result for backend i (enabled while i is down),
+//                delivered through the statements of health_check.go:check that follow
+//                CheckConnect (fail: ResetSuccNum; ok: AddSuccNum, CheckAvail(SuccNum) ->
+//                SetRestart(true), SetAvail(true)); the real check goroutine is started by the
+//                real code but leaves at once (backend close channel closed at server
+//                build) because its CheckConnect needs a real socket,
+//   release    : the parked request continues and finishes.
+// The model is not touched by availability events; the oracle is evaluated at the quiescent
+// point after every event as well.
 
 import (
 	"fmt"
@@ -140,7 +157,7 @@ func c07spec(m, c, rl int) h1spec {
 // ---- families -------------------------------------------------------------------------------
 
 type c07family struct {
-	kind     string // one | avail | seq | conc | points | pseq
+	kind     string // one | avail | seq | conc | points | pseq | hc
 	m, c, rl int
 	mode     string // WRR | WLC
 	avail    int    // bit i set = backend c07backendNames[i] available
@@ -150,9 +167,15 @@ type c07family struct {
 	parkAt   int  // conc: attempt of request a that parks inside RoundTrip
 	big      bool // explored by all shards (sub-tree sharding) instead of one
 	late     int  // points/pseq: level of the verdict alphabets at the non-forward callback points
+	failNum  int  // hc: FailNum of the cluster's health-check conf (0 = the generated 1000)
+	succNum  int  // hc: SuccNum
+	steps    int  // hc: number of events after request a was sent
 }
 
 func (f *c07family) name() string {
+	if f.kind == "hc" {
+		return fmt.Sprintf("%s/m%dc%dr%d/%s/av%d/%s/A%dV%d/p%d/F%dS%dE%d", f.kind, f.m, f.c, f.rl, f.mode, f.avail, f.method, len(f.answers), len(f.verdicts), f.parkAt, f.failNum, f.succNum, f.steps)
+	}
 	if f.late > 0 {
 		return fmt.Sprintf("%s/m%dc%dr%d/%s/av%d/%s/A%dV%dL%d/p%d", f.kind, f.m, f.c, f.rl, f.mode, f.avail, f.method, len(f.answers), len(f.verdicts), f.late, f.parkAt)
 	}
@@ -204,6 +227,32 @@ func c07families(thorough bool) []*c07family {
 		for _, x := range pseq {
 			fs = append(fs, &c07family{kind: "pseq", m: x[0], c: x[1], rl: x[2], mode: mode, avail: 7, method: "GET",
 				answers: c07answersRed, verdicts: c07verdictsQ, late: 1, big: x[2] == 1 && x[0]+x[1] >= 1})
+		}
+	}
+	// availability transitions (mark-down by request failures, health-check results) around
+	// a request parked inside RoundTrip
+	hcA := []string{"ok", "connect", "other"}
+	hcV := []string{"goon", "change-next"}
+	type hcConf struct{ m, c, steps int }
+	hcConfs := []hcConf{{0, 0, 3}, {1, 0, 2}}
+	if thorough {
+		hcConfs = []hcConf{{0, 0, 4}, {1, 0, 3}, {0, 1, 2}, {1, 1, 2}}
+	}
+	for _, hc := range hcConfs {
+		for _, ma := range [][2]interface{}{{"WRR", 7}, {"WLC", 7}, {"WRR", 5}} {
+			for fn := 1; fn <= 2; fn++ {
+				for sn := 1; sn <= 2; sn++ {
+					if sn == 2 && !(thorough && hc.m+hc.c == 0) {
+						continue
+					}
+					steps := hc.steps
+					if thorough && hc.m == 1 && hc.c == 0 && ma[0].(string) == "WLC" {
+						steps = 2
+					}
+					fs = append(fs, &c07family{kind: "hc", m: hc.m, c: hc.c, rl: 0, mode: ma[0].(string), avail: ma[1].(int), method: "GET",
+						answers: hcA, verdicts: hcV, parkAt: 1, failNum: fn, succNum: sn, steps: steps, big: thorough && steps >= 3})
+				}
+			}
 		}
 	}
 	// availability patterns x balance mode
@@ -317,6 +366,9 @@ type c07world struct {
 	release    chan struct{}
 	conns      []*c07conn
 	panics0    int64 // value of ProxyState.PanicClientConnServe when the execution started
+	availPrev  map[string]bool
+	markdowns  int // backends marked down by request failures (real OnFail path)
+	recoveries int // backends brought back by a delivered health-check result
 	harnessErr string
 }
 
@@ -630,6 +682,16 @@ func (w *c07world) completed(tag string, c *c07conn) string {
 	}
 	np := w.srv.serverStatus.ProxyState.PanicClientConnServe.Get() - w.panics0
 	w.events = append(w.events, fmt.Sprintf("%s: completed (%s, conn closed=%v, panics recovered by conn.serve so far=%d)", tag, status, c.isClosed(), np))
+	for _, n := range c07backendNames {
+		now := w.backs[n].Avail()
+		if w.availPrev != nil && w.availPrev[n] && !now {
+			w.markdowns++
+			w.events = append(w.events, fmt.Sprintf("backend %s marked down by request failures (FailNum %d reached)", n, w.fam.failNum))
+		}
+		if w.availPrev != nil {
+			w.availPrev[n] = now
+		}
+	}
 	w.check("after-request", q)
 	oc := status
 	switch {
@@ -653,12 +715,13 @@ func (w *c07world) completed(tag string, c *c07conn) string {
 }
 
 type c07result struct {
-	viol     *c07viol
-	outcomes []string
-	attempts int
-	overlap  bool // two requests were in flight at the same time at some point
-	err      string
-	events   []string
+	viol                  *c07viol
+	outcomes              []string
+	attempts              int
+	overlap               bool // two requests were in flight at the same time at some point
+	err                   string
+	events                []string
+	markdowns, recoveries int
 }
 
 // c07resetServer puts the shared server object into the family's initial state.
@@ -676,6 +739,8 @@ func c07resetServer(srv *BfeServer, f *c07family) (map[string]*backend.BfeBacken
 		}
 		b.SetAvail(true) // also resets failNum
 		b.ResetFailNum()
+		b.ResetSuccNum()
+		b.SetRestart(false)
 		for b.ConnNum() > 0 {
 			b.DecConnNum()
 		}
@@ -689,6 +754,16 @@ func c07resetServer(srv *BfeServer, f *c07family) (map[string]*backend.BfeBacken
 		panic(err)
 	}
 	bal.C07VerifResetRR()
+	// the health-check conf of the real cluster object, reached through the real fetcher
+	backend.SetCheckConfFetcher(srv.GetCheckConf)
+	cc := srv.GetCheckConf("c1")
+	if cc == nil || cc.FailNum == nil || cc.SuccNum == nil {
+		panic("c07: no health-check conf for c1")
+	}
+	*cc.FailNum, *cc.SuccNum = 1000, 1
+	if f.failNum > 0 {
+		*cc.FailNum, *cc.SuccNum = f.failNum, f.succNum
+	}
 	if f.mode == "WLC" {
 		bal.BalanceMode = cluster_conf.BalanceModeWlc
 	} else {
@@ -737,6 +812,81 @@ func c07exec(t *testing.T, srv *BfeServer, f *c07family, ch *vk.Chooser) c07resu
 				c.send(w.requestBytes("b"))
 				res.outcomes = append(res.outcomes, w.completed("b", c))
 			}
+		case "hc":
+			w.availPrev = map[string]bool{}
+			for _, n := range c07backendNames {
+				w.availPrev[n] = w.backs[n].Avail()
+			}
+			w.parkAt["a"] = f.parkAt
+			ca := w.open()
+			ca.send(w.requestBytes("a"))
+			w.mu.Lock()
+			parked := w.parked == "a"
+			w.mu.Unlock()
+			if !parked {
+				res.outcomes = append(res.outcomes, w.completed("a", ca))
+			}
+			res.overlap = parked
+			tags := []string{"b", "c", "d", "e"}
+			nreq := 0
+			for step := 0; step < f.steps && !stop(); step++ {
+				evs := []string{"req"}
+				for _, n := range c07backendNames {
+					if !w.backs[n].Avail() {
+						evs = append(evs, "hc-ok:"+n, "hc-fail:"+n)
+					}
+				}
+				if parked && !released {
+					evs = append(evs, "release")
+				}
+				w.mu.Lock()
+				ev := w.choose(evs)
+				w.mu.Unlock()
+				switch {
+				case ev == "req":
+					tag := tags[nreq]
+					nreq++
+					c := w.open()
+					c.send(w.requestBytes(tag))
+					res.outcomes = append(res.outcomes, w.completed(tag, c))
+				case ev == "release":
+					close(w.release)
+					released = true
+					synctest.Wait()
+					res.outcomes = append(res.outcomes, w.completed("a", ca))
+				default:
+					n := ev[strings.Index(ev, ":")+1:]
+					b := w.backs[n]
+					kind := "backend-check-failed"
+					// what health_check.go:check does with the result of CheckConnect
+					if strings.HasPrefix(ev, "hc-ok") {
+						kind = "backend-check-ok"
+						b.AddSuccNum()
+						if b.CheckAvail(f.succNum) {
+							b.SetRestart(true)
+							b.SetAvail(true)
+							kind = "backend-recovered"
+						}
+					} else {
+						b.ResetSuccNum()
+					}
+					synctest.Wait()
+					w.mu.Lock()
+					w.events = append(w.events, fmt.Sprintf("health check of %s: %s -> %s (avail=%v)", n, ev[:strings.Index(ev, ":")], kind, b.Avail()))
+					if kind == "backend-recovered" {
+						w.recoveries++
+					}
+					w.availPrev[n] = b.Avail()
+					w.check("after-health-event", &c07req{tag: "-", late: kind})
+					w.mu.Unlock()
+				}
+			}
+			if parked && !released && !stop() {
+				close(w.release)
+				released = true
+				synctest.Wait()
+				res.outcomes = append(res.outcomes, w.completed("a", ca))
+			}
 		case "conc":
 			w.parkAt["a"] = f.parkAt
 			ca := w.open()
@@ -783,7 +933,7 @@ func c07exec(t *testing.T, srv *BfeServer, f *c07family, ch *vk.Chooser) c07resu
 			w.harnessErr = fmt.Sprintf("model still has in-flight requests at the end: %v", w.assign)
 		}
 		var last *c07req
-		for _, tag := range []string{"b", "a"} {
+		for _, tag := range []string{"e", "d", "c", "b", "a"} {
 			if q := w.reqs[tag]; q != nil {
 				last = q
 				break
@@ -799,6 +949,7 @@ func c07exec(t *testing.T, srv *BfeServer, f *c07family, ch *vk.Chooser) c07resu
 	res.viol = w.viol
 	res.err = w.harnessErr
 	res.events = w.events
+	res.markdowns, res.recoveries = w.markdowns, w.recoveries
 	for _, q := range w.reqs {
 		res.attempts += q.attempts
 	}
@@ -844,6 +995,11 @@ func TestVerifC07(t *testing.T) {
 			if err := s.CallBacks.AddFilter(pt.id, c07pointFilter(pt)); err != nil {
 				t.Fatalf("c07: AddFilter(%s): %v", pt.name, err)
 			}
+		}
+		// the health-check goroutine started by the real backend.UpdateStatus must not touch a
+		// real socket: a closed close-channel makes it leave at its first loop test
+		for _, b := range s.balTable.VerifBackends() {
+			b.Close()
 		}
 		servers[k] = s
 		return s
@@ -901,6 +1057,15 @@ func TestVerifC07(t *testing.T) {
 				r.Add("sum_overlapping_executions", 1)
 			}
 			r.Add("sum_roundtrip_attempts", int64(res.attempts))
+			if res.markdowns > 0 {
+				r.Add("sum_executions_with_backend_marked_down_by_failures", 1)
+			}
+			if res.recoveries > 0 {
+				r.Add("sum_executions_with_backend_recovered_by_health_check", 1)
+				if res.overlap {
+					r.Add("sum_executions_with_recovery_while_request_parked_or_after", 1)
+				}
+			}
 			if res.viol != nil {
 				famViol++
 				r.Outcome("VIOLATING")
